@@ -396,6 +396,63 @@ def r12_5(ctx):
               "all names are plain identifiers (safe inside the `(a|b|..)` alternation of the grep filter)")
 
 
+KEEP_LINES = [
+    # `declare -p` lines of variables that are neither read-only nor excluded: every one must survive all dump filters
+    'declare -- GREETING="hello dear world"', 'declare -x OWNER="user name"', 'declare -a WORDS=([0]="bar baz" [1]="qux")',
+    'declare -A MAP=([key]="r r " [other]="x")', 'declare -- QUOTED="declare -r X=1"', 'declare -i NUM="5"', 'declare -- TR="r "',
+    'declare -x PATHLIKE="/usr/r /bin:-r x"', 'declare -- EQ="a=b r c=d"', 'declare -l lower="r"', 'declare -- r="1"', 'declare -x rr="r r"',
+    'declare -- EMPTY=""', 'declare -- UNSET', "declare -- NL=$'a\\nr b'", 'declare -ax EXPARR=([0]="r ")', 'declare -- UML="gr\u00fc\u00dfe r "',
+]
+READONLY_LINES = ['declare -r RO="1"', 'declare -xr ROX="1"', 'declare -ar ROA=([0]="1")', 'declare -ir ROI="1"']
+
+
+def _unquote_dq(text):
+    """what bash hands on for a double-quoted word (\\$ \\" \\\\ \\` unescaped)"""
+    return re.sub(r"\\([$\"\\`])", r"\1", text)
+
+
+def r12_7(ctx):
+    """the variable dump is filtered by `grep -Ev` expressions: each must decide on the *head* of a `declare -p` line (`declare -<flags> <name>`) only.
+    (a) structure: anchored at `^declare -`, and no unbounded wildcard (`.*`, `.+`) before the first blank - such a pattern runs on into the name and the value;
+    (b) table: representative lines of ordinary variables (values with blanks, `r `, `=`, quotes, arrays) survive all filters, read-only and excluded ones are dropped"""
+    prog = ctx.prog
+    tpl = template(prog)
+    where = "src/executors/bash_runner.template"
+    table = prog.const("BASH_EXCLUDED_VARIABLES").str_table() or []
+    segs = _segments(tpl.replace("{shell_expression}", ":"))
+    filters = []
+    for x in segs:
+        x = x.replace("\\\n", " ").strip()
+        m = re.match(r"^grep\s+-(E?v|vE)\s+\"(.*)\"\s*$", x, re.S)
+        if m and "declare" in m.group(2):
+            filters.append(_unquote_dq(m.group(2)))
+    if len(filters) < 2:
+        raise AnchorError("bash runner template: expected the read-only filter and the exclusion filter of the variable dump, found %d `grep -Ev` segment(s)" % len(filters))
+    compiled = []
+    for i, f in enumerate(filters):
+        head = f.split(" ", 2)
+        flagpart = f[len("^declare -"):].split(" ")[0] if f.startswith("^declare -") else None
+        ok = flagpart is not None and not re.search(r"\.(\*|\+|\{\d*,\})", flagpart)
+        ctx.check(ok, "filter-head-anchored#%d" % i, where, "`grep -Ev \"%s\"` is anchored at `^declare -` and its flag part cannot run past the attribute block" % f,
+                  "`grep -Ev \"%s\"` %s: the pattern matches inside variable names and values, so ordinary variables whose value happens to contain the rest of "
+                  "the pattern (e.g. `GREETING=\"hello dear world\"` for `.*r `) are missing in the next test case" % (
+                      f, "is not anchored at `^declare -`" if flagpart is None else "has an unbounded wildcard in its flag part"))
+        try:
+            compiled.append(re.compile(f.replace("{excluded_variables}", "|".join(re.escape(t_) for t_ in table) or "__NONE__")))
+        except re.error as e:
+            ctx.bad("filter-regex#%d" % i, where, "`%s` is not a regular expression this analysis can evaluate (%s)" % (f, e))
+    if len(compiled) != len(filters):
+        return
+    lost = [l for l in KEEP_LINES if any(c.search(l) for c in compiled)]
+    ctx.check(not lost, "filter-table:keep", where, "%d representative `declare -p` lines of ordinary variables pass all %d filters" % (len(KEEP_LINES), len(compiled)),
+              "the dump filters drop ordinary variables: %s - these are unset in the following test case" % lost[:4])
+    kept = [l for l in READONLY_LINES if not any(c.search(l) for c in compiled)]
+    ctx.check(not kept, "filter-table:readonly", where, "read-only variables (-r, -xr, -ar, -ir) are not dumped (re-importing them would fail)",
+              "read-only variables are dumped: %s - sourcing the state fails on them" % kept)
+    exkept = [t_ for t_ in table if not any(c.search('declare -x %s="v"' % t_) for c in compiled)]
+    ctx.check(not exkept, "filter-table:excluded", where, "all %d excluded variables are dropped from the dump" % len(table), "excluded variables are dumped: %s" % exkept[:5])
+
+
 def run(ctx):
     ctx.run_rule("R12.1", "one state directory (a TempDir in the document's temp dir) created before the loop and handed to every per-test-case runner [E-FLOW]", r12_1, floor=5)
     ctx.run_rule("R12.2", "BashRunner::run: persist_state 0 exactly for detached test cases; excluded_variables = BASH_EXCLUDED_VARIABLES.join(|); state_directory wired [E-FLOW, E-PATH]", r12_2, floor=4)
@@ -403,3 +460,4 @@ def run(ctx):
     ctx.run_rule("R12.6", "every name the template itself assigns/declares (incl. `local` in the trap function) is an excluded __SCRUT internal: user variables are never shadowed in the dump [template analyzer]", r12_6, floor=4)
     ctx.run_rule("R12.4", "template order/presence: path, source state, conditional EXIT trap, expression last; trap saves/restores $?; dump group prints every state class into the sourced file [template analyzer]", r12_4, floor=14)
     ctx.run_rule("R12.5", "exclusion table == EXCL rows of the rustdoc table + scrut internals [E-TABLE]", r12_5, floor=5)
+    ctx.run_rule("R12.7", "dump filters decide on the head of a `declare -p` line only: anchored, no unbounded wildcard in the flag part; representative ordinary variables survive, read-only / excluded ones are dropped [template analyzer, E-TABLE]", r12_7, floor=5)
